@@ -31,6 +31,7 @@ DECIDED = [
     'R8: ConfigNone (payload of null scalars) evaluated: false, equal to None, printed as None, get() is None.',
     'R9: the walkers (filter_nodes, map_nodes, nodes_with_paths) and EvalContext.evaluate_node normalise their path prefix without type-checking its components: float / bool keys are legal.',
     'R10: NamespaceableMeta.__init__ on traces: namespaces are installed on the class and members moved into a namespace are removed from the class itself (own, non-dunder names) - so that only real class attributes are refused as mapping keys. (This is also the machinery the source model of the analysis mirrors.)',
+    'R1c also: yaml._make_node evaluated on 24 rows (node kind x dict_is_data x data_arg_name x parse_scalars). R2 also: every tag of the property builds the documented node class with the documented data handling (tag specification table), _decode_metadata separates merge-control fields from user metadata, and the registration helpers register with PyYAML.',
 ]
 UNDECIDED = ['tokenisation of the {{...}} block end (_get_metadata_end);', 'equality of scalar values; non-core YAML types; YAML merge keys (<<) under tagged mappings.']
 TRUSTED = ['shape of yaml/constructor.py BaseConstructor.construct_object of the installed PyYAML (re-verified structurally on each run)']
@@ -527,11 +528,14 @@ def check(repo, run, tier):
     g(unitrules.list_path_table, repo, run, 'C01.R9')
     g(unitrules.decode_metadata_table, repo, run, 'C01.R2')
     g(unitrules.namespace_assembly, repo, run, 'C01.R10')
+    g(unitrules.tag_spec, repo, run, 'C01.R2', ['!null'])
+    g(unitrules.make_node_table, repo, run, 'C01.R1c')
     g.done()
 
 
 def mutants(repo):
     return [
+        Mutant('mapping-arguments-dropped', lambda r: in_func(r, 'yaml._make_node', "        kwargs.update(data)\n", ""), ['C01.R1c']),
         Mutant('namespace-members-stay-on-class', lambda r: in_func(r, 'NamespaceableMeta.__init__', "                    delattr(cls, name)\n", "                    pass\n"), ['C01.R10']),
         Mutant('metadata-fields-not-extracted', lambda r: in_func(r, 'yaml._decode_metadata', "        if special in metadata:", "        if special not in metadata:"), ['C01.R2']),
         Mutant('typed-evaluation-paths', lambda r: in_func(r, 'EvalContext.evaluate_node', "NodePath.get_list_path(prefix, check_types=False)", "NodePath.get_list_path(prefix)"), ['C01.R9']),
